@@ -452,6 +452,18 @@ HfeFile::HfeFile(const std::string& name, bool compressed, std::unique_ptr<DFS::
 	  throw InvalidHfeFile(ss.str());
 	}
 
+      if (header_.number_of_track == 0)
+	{
+	  throw InvalidHfeFile("the HFE file header says that the image has no tracks");
+	}
+      if (header_.number_of_side > 2)
+	{
+	  std::ostringstream ss;
+	  ss << "the HFE file header says that the image has "
+	     << static_cast<unsigned int>(header_.number_of_side)
+	     << " sides; at most 2 are supported";
+	  throw UnsupportedHfeFile(ss.str());
+	}
       std::vector<PicTrack> track_lut = read_track_offset_lut(file_.get(), header_.number_of_track);
 
       for (unsigned int side = 0; side < header_.number_of_side; ++side)
